@@ -403,6 +403,16 @@ def run_laws(seed, n, forced=None):
         if forced is not None:
             call, law = forced[i]
             call = dict(call)
+        if forced is None and rng.random() < 0.12:
+            # larger overlaps + fractional overlap_size + strict operator (overlap_join documents a float)
+            call = J.skew_call(rng, 'OVERLAP')
+            call['t'] = rng.choice([1, 1.5, 2, 2.5])
+            call['op'] = rng.choice(['>', '>', '>=', '='])
+            law = rng.choice(['refine', 'refine', 'partition', 'transpose'])
+        elif call['measure'] == 'OVERLAP' and forced is None:
+            # overlap_join documents a float threshold: fractional values with the strict operator
+            call['t'] = rng.choice([1, 2, 1.5, 2.5, 0.5])
+            call['op'] = rng.choice(['>=', '>', '>', '='])
         call['with_score'] = True
         call['l_out'] = call['r_out'] = None
         m = call['measure']
@@ -442,7 +452,7 @@ def run_laws(seed, n, forced=None):
             if m == 'EDIT_DISTANCE':
                 t2 = rng.choice([x for x in [0, 1, 2, 3] if x <= math.floor(call['t'])])
             elif m == 'OVERLAP':
-                t2 = call['t'] + rng.choice([0, 1, 2])
+                t2 = call['t'] + rng.choice([0, 1, 2, 0.5, 1.5, 1.5, 0.5])
             else:
                 t1 = float(call['t'])
                 t2 = rng.choice([t1, min(1.0, t1 + rng.random() * (1 - t1)), min(1.0, gens.ulp_shift(t1, 1)),
@@ -566,6 +576,37 @@ def sim_function(measure):
             'EDIT_DISTANCE': sm.Levenshtein().get_raw_score}[measure]
 
 
+def same_set_call(rng, m):
+    """Equal token SETS written in a different order (and with repeats) on the two sides, thresholds
+    at and just below 1.0: py_stringmatching's `if set1 == set2: return 1.0` compares the LISTS it is
+    given, so the join (tokens sorted by the global order) takes the shortcut where apply_matcher
+    (tokenizer order) evaluates the formula -- for cosine k/(sqrt k * sqrt k) can be 0.9999999999999998
+    or 1.0000000000000002."""
+    import py_stringmatching as sm
+    import struct
+    words = rng.sample(T.WORDS, rng.randint(3, 7))
+    nl, nr = rng.randint(1, 4), rng.randint(1, 5)
+    lrows = [' '.join(rng.sample(words, rng.randint(1, len(words)))) for _ in range(nl)]
+    rrows = []
+    for _ in range(nr):
+        if rng.random() < 0.7:
+            tk = rng.choice(lrows).split(' ')
+            rng.shuffle(tk)
+            if rng.random() < 0.4:
+                tk.append(rng.choice(tk))
+            rrows.append(' '.join(tk))
+        else:
+            rrows.append(' '.join(rng.sample(words, rng.randint(1, len(words)))))
+    L = pd.DataFrame({'id': range(1, nl + 1), 's': pd.Series(lrows, dtype=object)})
+    R = pd.DataFrame({'id': range(11, nr + 11), 's': pd.Series(rrows, dtype=object)})
+    one_m = struct.unpack('<d', struct.pack('<q', struct.unpack('<q', struct.pack('<d', 1.0))[0] - 1))[0]
+    t = rng.choice([1.0, 1.0, one_m, 0.99995, 0.9999, 0.99994, 0.7])
+    return dict(measure=m, kind='ws', tok=sm.WhitespaceTokenizer(return_set=True), L=L, R=R,
+                names=('id', 's', 'id', 's'), t=t, tcls='same-set', op=rng.choice(['>=', '>=', '>', '=']),
+                allow_empty=True, allow_missing=False, with_score=True, njobs=rng.choice([1, 2]),
+                l_out=None, r_out=None)
+
+
 def run_pipeline(seed, n):
     import joblib
     import py_stringsimjoin as ssj
@@ -578,6 +619,8 @@ def run_pipeline(seed, n):
         call = J.gen_call(rng, m)
         if rng.random() < 0.3 and m != 'EDIT_DISTANCE':
             call = J.boundary_call(rng, m)
+        if rng.random() < 0.12 and m in JCD:
+            call = same_set_call(rng, m)
         call['with_score'] = True
         call['allow_missing'] = False
         call['l_out'] = call['r_out'] = None
